@@ -55,9 +55,10 @@ Kernel == /\ Ev.e = "Kernel"
                \cup { <<Ev.t, "LayoutInjective", Ev.i, Ev.ninj[k]>> : k \in 1..Len(Ev.ninj) }
           /\ mem' = Tagging(Ev.wr) @@ mem
 Dma == /\ Ev.e = "Dma"
-       /\ LET undefined == \E i \in 1..Len(Ev.src) : mem[Ev.src[i]] = Uninit
-              foreign == \E i \in 1..Len(Ev.src) : mem[Ev.src[i]] # Uninit /\ mem[Ev.src[i]][1] # Ev.insid
-              wrongoff == Ev.mode = "retag" /\ \E i \in 1..Len(Ev.src) : mem[Ev.src[i]] # <<Ev.insid, Ev.indelta>>
+       \* chk = the source cells that hold the tensor (a feature-map copy also moves up to 15 bytes of allocation padding)
+       /\ LET undefined == \E i \in 1..Len(Ev.chk) : mem[Ev.chk[i]] = Uninit
+              foreign == \E i \in 1..Len(Ev.chk) : mem[Ev.chk[i]] # Uninit /\ mem[Ev.chk[i]][1] # Ev.insid
+              wrongoff == Ev.mode = "retag" /\ \E i \in 1..Len(Ev.chk) : mem[Ev.chk[i]] # <<Ev.insid, Ev.indelta>>
           IN viol' = viol \cup (IF undefined THEN {<<Ev.t, "DmaCopiesDefined", Ev.i, "src">>} ELSE {})
                           \cup (IF foreign \/ wrongoff THEN {<<Ev.t, "DmaCopiesIntended", Ev.i, "src">>} ELSE {})
        /\ mem' = IF Ev.mode = "retag"
